@@ -251,6 +251,10 @@ class Sim:
         if k is not None:
             # a listed finding: counted, reported as KNOWN-FINDING, never ends the run
             self.known_hits[k["id"]] = self.known_hits.get(k["id"], 0) + 1
+            if k.get("ends_run"):
+                # the listed defect leaves the tracks inconsistent: nothing after it could
+                # be attributed; the run ends here (counted), the finding is reported
+                raise RunAbort("known_finding_" + k["id"], v["msg"][:120])
             return None
         self.violations.append(v)
         return v
@@ -712,6 +716,19 @@ class Sim:
                 return self._defer("history_diverged")
         if own:
             self.stat("C02.eval")
+        if self.active("C10") and self.tainted and val is True and not self.violations:
+            # strict reading of C10 ("once enabled with recomputation, values equal the
+            # reference for the current state"): after a bulk re-enable renumbered the ids,
+            # a history step replays actions that recorded the old numbers
+            tr = self.tracks
+            res = []
+            if tr.features.tracklet_key in self.tainted and tr.features.tracklet_key in self.model_active:
+                res += oracles.track_partition(tr)
+            if tr.features.lineage_key in self.tainted and tr.features.lineage_key in self.model_active:
+                res += oracles.lineage_partition(tr)
+            for _, m in res:
+                self.violate("C10", "C10.values", f"{kind}() after the ids had been recomputed by enable_features: {m}", op, ["after_id_renumbering"])
+                return
 
     def _adjacent_inverse(self, kind):
         """True if this undo directly follows the accepted edit it inverts, or this redo
@@ -944,6 +961,13 @@ class Sim:
             # values must still be those of the mask (C08)
             attrs["area"] = 999.0
             attrs[tr.features.position_key if isinstance(tr.features.position_key, str) else "pos"] = [0.0] * len(self.fshape)
+        nopix = False
+        if op.get("no_pixels_with_pos") and self.with_seg and not inv and isinstance(tr.features.position_key, str):
+            # legal by the signature (pixels are optional), accepted by the library with a
+            # warning: known finding D16 - the node then labels no pixel
+            pixels = None
+            attrs[tr.features.position_key] = [0.5] * len(self.fshape)
+            nopix = True
         if inv == "bad_pixels":
             # invalid request: a mask that cannot be painted - an index outside the array,
             # or any mask on tracks that have no segmentation
@@ -956,6 +980,8 @@ class Sim:
         eff_tid = tid
         same_time = [n for n in nodes if g.nodes[n].get(trk) == tid and g.nodes[n][tkey] == t]
         tags = ["forced"] if force else []
+        if nopix:
+            tags.append("no_pixels_with_pos")
         if same_time:
             eff_tid = None
             tags.append("trackid_clash_same_time")
